@@ -268,6 +268,32 @@ pub fn plan(tier: Tier) -> Plan {
             do_case(&kvs, (2, 2), false, &[], st, rep);
         }
     }));
+    for part in 0..16usize {
+        p.units.push(unit("key-length-ladder-(finite-family)", format!("length ladder part {}", part), move |st, rep| {
+            for (_, kvs) in key_length_ladder(part, 16) {
+                st.nontrivial += 1;
+                // probes: every key; without its last byte; with one more byte; last byte changed;
+                // first byte changed; the middle byte changed
+                let mut probes: Vec<Key> = vec![vec![]];
+                for (k, _) in &kvs {
+                    probes.push(k.clone());
+                    probes.push(k[..k.len() - 1].to_vec());
+                    for b in [0u8, b'a', b'x', 0xff] {
+                        let mut m = k.clone();
+                        m.push(b);
+                        probes.push(m);
+                        let mut m = k.clone();
+                        *m.last_mut().unwrap() = b;
+                        probes.push(m);
+                        let mut m = k.clone();
+                        m[k.len() / 2] = b;
+                        probes.push(m);
+                    }
+                }
+                do_probes(&kvs, (2, 2), &probes, st, rep);
+            }
+        }));
+    }
     p.must_be_nonzero = vec!["fanout_cases".into(), "label_cases".into()];
     p
 }
